@@ -350,7 +350,7 @@ def any_path_implies(paths, goal: ast.expr, mapping=None) -> List[int]:
     return bad
 
 
-def copy_map(func: ast.FunctionDef) -> Dict[str, ast.expr]:
+def copy_map(func: ast.FunctionDef, pure_calls: Sequence[str] = ()) -> Dict[str, ast.expr]:
     """Locals assigned exactly once in `func` from a pure access path / constant
     (`dest_mod_id = header.dest_mod_id`): name -> defining expression."""
     from .program import walk_local
@@ -396,6 +396,9 @@ def copy_map(func: ast.FunctionDef) -> Dict[str, ast.expr]:
     for name, c in count.items():
         if c == 1 and name in rhs and name not in params and _pure_path(rhs[name]):
             out[name] = rhs[name]
+        elif c == 1 and name in rhs and name not in params and pure_calls and isinstance(rhs[name], ast.Call) and isinstance(rhs[name].func, ast.Name) \
+                and rhs[name].func.id in pure_calls and len(rhs[name].args) == 1 and not rhs[name].keywords and _pure_path(rhs[name].args[0]):
+            out[name] = rhs[name]  # `int_value = int(value)`: a pure conversion of a pure path
     return out
 
 
